@@ -7,13 +7,15 @@ import runner_common as rc
 
 LEVEL = "proof"
 OPTS = {"p_handler": 0.55, "p_bs": 0.5, "handler_choices": ["S", "S", "S", "D", "A"], "p_metric": 0.9,
-        "p_fail_exc": 0.6, "p_special": 0.05}
+        "p_fail_exc": 0.6, "p_special": 0.05,
+        # the context-manager entry binds the per-call handler / hook / sleeper once for several calls
+        "entries": ["retry", "retry", "retry", "retry.ctx"]}
 
 
 def run(chk):
     chk.assumptions += [
         "time passes only in the operation and the sleeper; monotonic clock non-decreasing; 1/64 s grid",
-        "decision callbacks (classifier, strategy, sleep handler, sleeper) do not raise ordinary exceptions; attempt_timeout_s=None",
+        "decision callbacks (classifier, strategy, sleep handler, sleeper) do not raise ordinary exceptions",
     ]
     rc.run_runner_check(chk, "C16", "proj_C16", OPTS)
 
